@@ -42,12 +42,15 @@ Check(m, e) ==
                   \* value)": a linear tween of d frames moves by (to - from) / d per frame wherever the chunk boundaries fall
                   \* (less in the chunk in which it ends); a zero-length one is spread over one chunk, which may be one frame
                   span == IF c.d > 1 THEN c.d ELSE 1
-                  step == (Abs(c.to - c.from) + span - 1) \div span + 2 * Tol
+                  \* (free: the observed level is not linear in the tweened quantity - a position or an orientation of a spatial
+                  \*  scene - so only its ends and its continuity are judged, the latter with a factor 4 for the curvature)
+                  step == (IF c.free THEN 4 ELSE 1) * ((Abs(c.to - c.from) + span - 1) \div span) + 2 * Tol
                   p == IF m.prev = -9999 THEN -6000 ELSE m.prev
                   \* (a pause fade ends in a state change: the chunk during which it completes is silent as a whole - "to within
                   \*  one callback", C03 - so the last step to exact silence is not a step of the tween)
                   lastStep == e.g = -9999 /\ c.to = -6000
               IN IF m.prev # 9999 /\ ~lastStep /\ Abs(g - p) > step THEN "value_is_continuous_from_frame_to_frame"
+                 ELSE IF c.free THEN (IF tt - c.b > c.d /\ Abs(g - c.to) > Tol THEN "value_equals_target_after_the_tween" ELSE "")
                  ELSE IF g < lo THEN (IF c.to < c.from THEN "tween_not_ahead_of_its_time" ELSE "tween_not_behind_its_time")
                  ELSE IF g > hi THEN (IF c.to < c.from THEN "tween_not_behind_its_time" ELSE "tween_not_ahead_of_its_time")
                  ELSE ""
